@@ -259,10 +259,10 @@ Proof.
 Qed.
 
 (* the varint the writer emits for an integer decodes, under the scalar type of the schema, to the integer *)
-Lemma int_wire k z : in_kind k z = true ->
+Lemma int_wire k z : in_kind k z = true -> wf_kind k = true ->
   exists x, x < two64 /\ number_bytes k z = write_varint x /\ num_value (scalar_of_kind k) x = z.
 Proof.
-  intros H. apply in_kind_range in H.
+  intros H Hwk. apply in_kind_range in H.
   destruct kind_sel_values as (S1 & S2 & S3 & S4 & S5 & S6 & S7 & S8).
   assert (U32 : forall k, kind_sel k = PUInt32 -> scalar_of_kind k = SUInt32 -> (0 <= z < 4294967296)%Z ->
             exists x, x < two64 /\ number_bytes k z = write_varint x /\ num_value (scalar_of_kind k) x = z).
@@ -279,7 +279,7 @@ Proof.
     unfold num_value. pose proof (zz32_low z) as L. unfold u32_of_u64, two32 in L. rewrite L.
     - apply unzigzag_spec, Hz.
     - unfold is_i32. change (Z.of_N two31) with 2147483648%Z. lia. }
-  destruct k; cbn [kind_range] in H; cbv [i64_min i64_max] in H;
+  destruct k as [| | | | | | | |sg mn mx]; cbn [kind_range] in H; cbv [i64_min i64_max] in H;
     change (Z.of_N two63) with 9223372036854775808%Z in H.
   - apply U32; [exact S1|reflexivity|lia].
   - apply S32; [exact S5|reflexivity|lia].
@@ -294,6 +294,22 @@ Proof.
     exists (zz64 z). split; [apply zz64_lt|split; [reflexivity|]].
     cbn [scalar_of_kind num_value]. rewrite zz64_val by (unfold is_i64; change (Z.of_N two63) with 9223372036854775808%Z; lia).
     apply unzigzag_spec64. lia.
+  - (* extensible: 64-bit Rust type, 64-bit format of the same signedness (4788e65), 64-bit proto type *)
+    unfold number_bytes, to_i64. rewrite i64_wrap_eq.
+    destruct sg; cbn [kind_range wf_kind] in H, Hwk; cbv [i64_min i64_max] in H;
+      change (Z.of_N two63) with 9223372036854775808%Z in H.
+    + assert (Hs : kind_sel (KExt true mn mx) = PSInt64).
+      { unfold kind_sel, num_sel. cbn [kind_ext kind_min kind_max negb andb].
+        assert ((0 <=? unwrap_or mn 0)%Z = false) as -> by lia. reflexivity. }
+      rewrite Hs.
+      replace ((z + 9223372036854775808) mod 18446744073709551616 - 9223372036854775808)%Z with z by lia.
+      exists (zz64 z). split; [apply zz64_lt|split; [reflexivity|]].
+      cbn [scalar_of_kind num_value]. rewrite zz64_val by (unfold is_i64; change (Z.of_N two63) with 9223372036854775808%Z; lia).
+      apply unzigzag_spec64. lia.
+    + assert (Hs : kind_sel (KExt false mn mx) = PUInt64).
+      { unfold kind_sel, num_sel. cbn [kind_ext kind_min kind_max negb andb]. rewrite Hwk. reflexivity. }
+      rewrite Hs. eexists. split; [apply u64_of_i64_lt|split; [reflexivity|]].
+      cbn [scalar_of_kind num_value]. unfold u64_of_i64. change (Z.of_N two64) with 18446744073709551616%Z. lia.
 Qed.
 
 (** * per-type decoding *)
@@ -304,8 +320,8 @@ Definition DF (t : pty) : Prop :=
 Lemma dec_absent t : dec_field (field_type t) [] = Some (absent_of t).
 Proof.
   destruct t as [|k| | | | |n|fs|t'|alts]; try reflexivity.
-  - destruct k; reflexivity.
-  - destruct t' as [|k| | | | |n|fs|t''|alts]; try reflexivity. destruct k; reflexivity.
+  - destruct k as [| | | | | | | |[|] ? ?]; reflexivity.
+  - destruct t' as [|k| | | | |n|fs|t''|alts]; try reflexivity. destruct k as [| | | | | | | |[|] ? ?]; reflexivity.
 Qed.
 
 Lemma DF_bool : DF TBool.
@@ -317,11 +333,11 @@ Qed.
 
 Lemma DF_int k : DF (TInt k).
 Proof.
-  intros v _ Hwf _. destruct v as [|z| | | | | | | | |]; try discriminate Hwf. cbn [wf_val] in Hwf.
-  destruct (int_wire k z Hwf) as (x & Hx & Ex & Ev).
+  intros v Hg Hwf _. destruct v as [|z| | | | | | | | |]; try discriminate Hwf. cbn [wf_val good] in Hwf, Hg.
+  destruct (int_wire k z Hwf Hg) as (x & Hx & Ex & Ev).
   cbn [recs_of map field_type]. rewrite Ex, wire_of_varint by exact Hx.
   cbn [dec_field pb_field]. unfold dec_scalar.
-  assert (is_varint_scalar (scalar_of_kind k) = true) as -> by (destruct k; reflexivity).
+  assert (is_varint_scalar (scalar_of_kind k) = true) as -> by (destruct k as [| | | | | | | |[|] ? ?]; reflexivity).
   cbn [varints flat_map app last]. rewrite Ev. reflexivity.
 Qed.
 
@@ -352,7 +368,7 @@ Proof.
   destruct t as [|k| | | | |n|fs|t'|alts]; try discriminate Hs;
     destruct v as [b|z|s|l|bytes bl| |i|vs|ov|vs|i x]; try discriminate Hwf.
   - cbn [recs_of] in Hr. injection Hr as <-. reflexivity.
-  - cbn [recs_of] in Hr. injection Hr as <-. unfold wire_of. cbn [fst field_type wire_ok]. destruct k; reflexivity.
+  - cbn [recs_of] in Hr. injection Hr as <-. unfold wire_of. cbn [fst field_type wire_ok]. destruct k as [| | | | | | | |[|] ? ?]; reflexivity.
   - cbn [recs_of] in Hr. injection Hr as <-. reflexivity.
   - cbn [recs_of] in Hr. injection Hr as <-. reflexivity.
   - change (recs_of TBits (VBits bytes bl)) with [(LengthDelimited, bytes ++ be_bytes 8 bl)] in Hr.
@@ -550,7 +566,8 @@ Proof.
 Qed.
 
 (* the finding classes of C18 inside the type universe are those of C17 (a NULL or SEQUENCE OF alternative of a
-   CHOICE, nested lists, lists of NULL); the SET numbering class lives at the declaration level ([decl]) *)
+   CHOICE, nested lists, lists of NULL, BitVec excess bytes); the SET numbering class lives at the declaration
+   level ([decl]) *)
 Definition Known_C18 (t : pty) (v : pval) : Prop := Known_C17 t v.
 
 Theorem decodes_unbounded m t v msg :
